@@ -241,7 +241,7 @@ class BrokerMachine(object):
 
     def touched(self, ev):
         """Portfolios whose history can have grown in the step that executed ev."""
-        if ev[0] in ('pf_sub', 'pf_wd', 'pf_direct_sub', 'pf_sub_quoted', 'pf_wd_quoted'):
+        if ev[0] in ('pf_sub', 'pf_wd', 'pf_direct_sub', 'pf_sub_quoted', 'pf_wd_quoted', 'fill_refused'):
             return {ev[1]}
         if ev[0] == 'tick':
             return set(pid for pid, _ in self.step_txns)
@@ -299,6 +299,12 @@ class BrokerMachine(object):
             mp = p.pos.get(ev[2])
             if mp is not None and (ev[4] < p.clock or ev[4] < mp.clock):
                 expect_exc = ValueError
+        elif kind == 'fill_refused':
+            # a fill handed to the portfolio directly which the position must refuse (price 0 on a held asset);
+            # it carries a commission, so a cash leg settled before the refusal would show
+            if ev[1] not in self.pfs or ev[2] not in self.pfs[ev[1]].pos:
+                raise HarnessError('fill_refused needs a held asset in the alphabet')
+            expect_exc = ValueError
         elif kind == 'pf_direct_sub':
             if ev[1] not in self.pfs:
                 raise HarnessError('pf_direct_sub on unknown portfolio in alphabet')
@@ -364,6 +370,9 @@ class BrokerMachine(object):
                 b.update(INSTANTS[ev[1]])
             elif kind == 'mark':
                 b.portfolios[ev[1]].update_market_value_of_asset(ev[2], float(ev[3]), self.now())
+            elif kind == 'fill_refused':
+                from qstrader.broker.transaction.transaction import Transaction
+                b.portfolios[ev[1]].transact_asset(Transaction(ev[2], 1, self.now(), 0.0, 'refused', commission=1.25))
             elif kind == 'pf_direct_sub':
                 b.portfolios[ev[1]].subscribe_funds(INSTANTS[ev[3]], float(ev[2]))
             elif kind == 'mark_at':
